@@ -14,8 +14,7 @@ def run(chk, replay=None):
         "T10Data.tla is a transcription of the parameter-data tables of SPC-4/SBC-3/SMC-3/MMC-6 from memory; buffers "
         "are produced by untrusted Python generators and TLC re-derives every expected value from the bytes; buffers "
         "whose embedded lengths are not honest are skipped (counted as unjudged)",
-        "not judged: ATA Information VPD page 89h (SAT-3 offsets not reconstructed with certainty), REPORT PRIORITY "
-        "descriptors beyond the header; READ CD is judged for the selections F8h / 10h / 20h on CD-DA, Mode 1, Mode 2 "
+        "not judged: REPORT PRIORITY descriptors beyond the header; READ CD is judged for the selections F8h / 10h / 20h on CD-DA, Mode 1, Mode 2 "
         "formless and Mode 2 form 1 sectors with every C2 / sub-channel selection (Mode 2 form 2 and the other "
         "selection codes are not judged: sizes not reconstructed with certainty)",
         "descriptor counts 0..3, slack 0/1/7 bytes",
